@@ -403,7 +403,12 @@ where
             let max = T::max_value();
             let l = T::try_from(l).unwrap_or(min);
             let r = T::try_from(r).unwrap_or(max);
-            u.int_in_range(l..=r)?
+            if l > r {
+                // an empty range carries no constraint; int_in_range would panic on it
+                u.arbitrary::<T>()?
+            } else {
+                u.int_in_range(l..=r)?
+            }
         }
     })
 }
